@@ -95,7 +95,7 @@ class ModelEval(Evaluator):
             return self.hooks["builtins"][nid]
         if nid in ("True", "False", "None"):
             return {"True": True, "False": False, "None": None}[nid]
-        if nid in ("isinstance", "hasattr", "getattr", "setattr", "super", "print", "callable", "type", "NotImplemented"):
+        if nid in ("isinstance", "hasattr", "getattr", "setattr", "super", "print", "callable", "type", "NotImplemented", "eval"):
             return Marker("builtin", nid)
         if nid in BUILTIN_TYPES and nid in ("int", "float", "str", "bool", "dict", "list", "tuple", "set", "object", "complex"):
             return Marker("type", BUILTIN_TYPES[nid])
@@ -392,6 +392,15 @@ class ModelEval(Evaluator):
         raise Unsupported("call %s (line %d)" % (norm(node.func), node.lineno))
 
     def call_builtin(self, node, name, args, kwargs):
+        if name == "eval":
+            # eval(<string>) in the current scope: the string is parsed and interpreted like any other expression
+            if len(args) != 1 or not isinstance(args[0], str):
+                raise Unsupported("eval of %r" % (args,))
+            try:
+                expr = ast.parse(args[0].strip(), mode="eval").body
+            except SyntaxError as e:
+                raise Raised("SyntaxError", node, str(e))
+            return self.ev(expr)
         if name == "isinstance":
             return self.isinstance_(args[0], args[1])
         if name == "hasattr":
